@@ -309,6 +309,7 @@ package vanguard
 //@   ensures w.initialized && ewInv(w) && w.rw == old(w.rw) && w.w == old(w.w)
 //@   ensures old(w.initialized) ==> w.err == old(w.err) && w.remainingBytes == old(w.remainingBytes) && w.writingEnvelope == old(w.writingEnvelope) && w.current == old(w.current)
 //@   ensures[C03] !old(w.initialized) && w.rw.op.serverEnveloper == nil && w.rw.op.clientEnveloper != nil && w.rw.contentLen != -1 && w.err == nil ==> w.remainingBytes == w.rw.contentLen
+//@   ensures[C16] !old(w.initialized) ==> w.writingEnvelope == (w.rw.op.serverEnveloper != nil)
 //@   ensures[C10,C03] !old(w.initialized) && w.rw.op.serverEnveloper == nil && w.rw.op.clientEnveloper != nil && w.rw.contentLen > limitOf(w.rw.op) ==> w.err != nil && w.rw.endWritten
 //@   ensures old(w.rw.endWritten) ==> w.rw.endWritten
 //@   modifies w.initialized, w.writingEnvelope, w.remainingBytes, w.current, w.mustReleaseCurrent, w.err, $vanguard.limitWriter., owned(unbox(w.current, *limitWriter).buf), owned(w.rw.buf), #RWB
@@ -340,11 +341,14 @@ package vanguard
 
 //@ func (*envelopingWriter).Write
 //@   dispatch (io.Writer).Write: *limitWriter
+//@   track flushes = (*responseWriter).flushMessage
+//@   track envs = (*envelopingWriter).handleEnvelopeWritten
 //@   requires ewInv(w) && (!w.initialized ==> w.err == nil && w.current == nil && !w.writingEnvelope && !w.mustReleaseCurrent && !w.currentIsTrailer)
 //@   step rwStep(w.rw)
 //@   ensures[C08] 0 <= n && n <= len(data) && (err == nil ==> n == len(data))
 //@   ensures ewInv(w) && w.initialized && w.rw == old(w.rw) && (old(w.rw.endWritten) ==> w.rw.endWritten)
 //@   loop 1 invariant[C08] written >= 0 && written + len(data) == len(old(data))
+//@   loop 1 invariant[C16] w.err == nil ==> ite(w.writingEnvelope, 0, 1) + flushes == envs + ite(ite(old(w.initialized), !old(w.writingEnvelope), old(w.rw.op.serverEnveloper) == nil), 1, 0)
 //@   loop 1 invariant ewInv(w) && w.initialized && w.remainingBytes != -1 && w.rw == old(w.rw) && rwStep(w.rw)
 //@   loop 1 decreases len(data), ite(w.writingEnvelope, 0, 1), ite(w.err == nil, 1, 0)
 
